@@ -44,7 +44,7 @@ ASSUMPTIONS = [
   'refusal = ValueError raised or None returned (Combiner documents both); the statement does not distinguish them',
 ]
 TECHNIQUE = 'Hypothesis tree generator + independent provenance model + per-tree exhaustive probe ranges'
-BUDGET = {'quick': dict(examples=12000, shards=8, max_seconds=60),
+BUDGET = {'quick': dict(examples=16000, shards=8, max_seconds=60),
           'thorough': dict(examples=240000, shards=16, max_seconds=600)}
 EXH = 14          # exhaustive (start,end) probing when the output text is at most this long
 
